@@ -105,6 +105,9 @@ class GaussianKDE(DensityEstimator):
         :return: values of the PDF estimate at the specified locations.
         """
         x = atleast_1d(x).astype(float)
+        # (any number of points - none included - in an array of any shape: evaluated
+        # as a flat array, returned in the given shape)
+        shape, x = x.shape, x.ravel()
         pdf = zeros(x.size)
         # look-up the region
         regions, index_groups = self.tree.region_groups(x)
@@ -113,7 +116,7 @@ class GaussianKDE(DensityEstimator):
             dx = x[g, None] - self.sample[None, self.slices[r]]
             pdf[g] = exp(-((dx * self.q) ** 2)).sum(axis=1)
         pdf *= self.norm
-        return pdf if pdf.size > 1 else pdf[0]
+        return pdf.reshape(shape) if pdf.size != 1 else pdf[0]
 
     def cdf(self, x: ndarray) -> ndarray:
         """
@@ -124,6 +127,7 @@ class GaussianKDE(DensityEstimator):
         :return: values of the PDF estimate at the specified locations.
         """
         x = atleast_1d(x).astype(float)
+        shape, x = x.shape, x.ravel()
         cdf = zeros(x.size)
         # look-up the region
         regions, index_groups = self.tree.region_groups(x)
@@ -133,7 +137,7 @@ class GaussianKDE(DensityEstimator):
             dx = x[g, None] - self.sample[None, self.slices[r]]
             k = 1 + erf(dx * self.q)
             cdf[g] = coeff * k.sum(axis=1) + self.cdf_offsets[r]
-        return cdf if cdf.size > 1 else cdf[0]
+        return cdf.reshape(shape) if cdf.size != 1 else cdf[0]
 
     def simple_bandwidth_estimator(self):
         # A simple estimate which assumes the distribution close to a Gaussian
